@@ -111,6 +111,9 @@ class World(object):
         import socket as _socket
         self._patch(circus.arbiter, 'socket', _Proxy(_socket, getfqdn=lambda: 'host.test'))
         self._patch(circus.arbiter, '_setproctitle', lambda t: None)
+        import zmq as _zmq
+        ctx = self.context
+        self._patch(circus.arbiter, 'zmq', _Proxy(_zmq, Context=types.SimpleNamespace(instance=lambda: ctx)))
         self._patch(circus.arbiter, 'select',
                     types.SimpleNamespace(select=lambda r, w, x, t=None: (list(self.select_result), [], [])))
         self._patch(circus.watcher, 'randint', lambda a, b: min(max(self.randint_value, a), b))
@@ -239,6 +242,17 @@ class World(object):
                                check_delay=check_delay, context=self.context, loop=self.ioloop,
                                warmup_delay=warmup_delay, **kw)
         return self.arbiter
+
+    def boot_from_config(self, path, wait=True):
+        """the real Arbiter.load_from_config on a real ini file"""
+        from circus.arbiter import Arbiter
+        self.arbiter = arb = Arbiter.load_from_config(path, loop=self.ioloop)
+        self.start_future = arb.start()
+        if wait:
+            if not self.run_future(self.start_future, max_time=120.0):
+                raise Diverged('arbiter.start did not complete')
+            self.start_future.result()
+        return arb
 
     def boot(self, watchers, check_delay=1.0, warmup_delay=0, wait=True, **kw):
         arb = self.mk_arbiter(watchers, check_delay, warmup_delay, **kw)
